@@ -100,6 +100,29 @@ def exec_plan(bdir, plan, timeout=60, flavour_env=None, verbose=False):
     return dict(kind="crash", hash=None, sigs=[sig], viol=[dict(sig=sig, prop=plan.get("prop"), op=op, detail=_crash_excerpt(err))], out=out, err=err)
 
 
+def exec_sequence(bdir, prop, tier, seed, start, step, count, timeout=180, flavour_env=None):
+    """Run `count` consecutive run indexes of one worker (start, start+step, ...) in ONE fresh process: used when a violation
+    depends on state an earlier run of the same worker left behind inside the library (static caches and the like).
+    Returns (signatures of the LAST index, combined text)."""
+    env = B.run_env(bdir, "portable" if (start & 1) else "sse2", flavour_env)
+    cmd = [os.path.join(bdir, "ecsim"), "batch", prop, tier, str(seed), str(start), str(step), str(count), "600", "0"]
+    try:
+        p = subprocess.run(cmd, env=env, stdout=subprocess.PIPE, stderr=subprocess.PIPE, timeout=timeout)
+    except subprocess.TimeoutExpired:
+        return ["%s/?/hang" % prop], "timeout"
+    out, err = p.stdout.decode("latin1"), p.stderr.decode("latin1")
+    last = start + (count - 1) * step
+    m = re.search(r"^END %d (.*)$" % last, out, re.M)
+    if m:
+        r = json.loads(m.group(1))
+        return [v["sig"] for v in r.get("viol", [])], out[-2000:]
+    begins = re.findall(r"^BEGIN (\d+)$", out, re.M)
+    if begins and int(begins[-1]) == last and p.returncode != 0:
+        sig, _ = crash_signature(prop, out, err, B.repo_root())
+        return [sig], err[-3000:]
+    return [], out[-1000:] + err[-1000:]
+
+
 def _crash_excerpt(err):
     lines = [l for l in err.splitlines() if l.strip()]
     keep = []
